@@ -822,7 +822,27 @@ impl<'a> Gen<'a> {
                 }
             }
             Ty::Bool => Stmt::Assign(name, self.bool_expr(sc, 2)),
-            Ty::Str => Stmt::Assign(name, self.str_expr(sc, 1)),
+            Ty::Str => {
+                // never concatenate variables into a string variable: sticky loops would
+                // double its length on every pass (exponential memory, not a runtime defect)
+                let e = match self.t.pick(3) {
+                    0 => Expr::Lit(Lit::Str(self.word())),
+                    1 => Expr::Bin(
+                        "+",
+                        Box::new(Expr::Lit(Lit::Str(self.word()))),
+                        Box::new(self.int_expr(sc, 1)),
+                    ),
+                    _ => {
+                        let v = self.vars_of(sc, Ty::Str);
+                        if v.is_empty() {
+                            Expr::Lit(Lit::Str(self.word()))
+                        } else {
+                            Expr::Var(v[self.t.pick(v.len())].clone())
+                        }
+                    }
+                };
+                Stmt::Assign(name, e)
+            }
             Ty::Float => Stmt::Assign(name, self.int_expr(sc, 1)),
             Ty::List => {
                 if self.t.chance(1, 2) {
@@ -897,7 +917,7 @@ impl<'a> Gen<'a> {
                     };
                     parts.push(Inline::Cond(c, a, b));
                 }
-                5 | 6 => {
+                5 | 6 if !(self.p.pure_functions && sc.func.is_some()) => {
                     let kind = match self.t.pick(if self.p.shuffles { 4 } else { 3 }) {
                         0 => SeqKind::Stopping,
                         1 => SeqKind::Cycle,
@@ -915,6 +935,7 @@ impl<'a> Gen<'a> {
                     }
                     parts.push(Inline::Seq(kind, alts));
                 }
+                5 | 6 => parts.push(Inline::Text(self.words(1, 2))),
                 _ => {
                     // text function / value call inside text
                     if let Some((f, args)) = self.callable(sc, None) {
